@@ -462,6 +462,11 @@ func runWorker(self, dir string, jobs []c07Job, tag string, outs map[int]*c07Out
 	loop:
 		for {
 			lim := c07Cap
+			if overloaded() {
+				// wall-clock says little while the machine is starved: wait longer before killing; a cap hit
+				// that is confirmed under overload still ends the run inconclusively, never as an alarm
+				lim = 10 * c07Cap
+			}
 			if !ready {
 				lim = 20 * time.Minute // importer start-up (`go list`), not part of any compile
 			}
